@@ -105,6 +105,18 @@ func genPlan(t *rapid.T) interface{} {
 		kinds = []string{"snapshot", "read", "read"}
 		nm := rapid.IntRange(5, 60).Draw(t, "ncmds")
 		bias := metacmd.GenBias(t, "bias")
+		if rapid.IntRange(0, 2).Draw(t, "bias.owners") == 0 {
+			// commands that edit owner lists in place, while snapshots of
+			// earlier versions are still being written out
+			bias = metacmd.Bias{Owners: true}
+			// ... on a cluster that has owner lists of two from the start
+			for n := 0; n < 3; n++ {
+				p.Cmds = append(p.Cmds, metacmd.CmdCreateDataNode(fmt.Sprintf("d%d:8086", n), fmt.Sprintf("d%d:8088", n)))
+			}
+			p.Cmds = append(p.Cmds, metacmd.CmdCreateDatabase("db0", nil), metacmd.CmdCreateRP("db0", "rp0", 0, time.Hour, 2, true),
+				metacmd.CmdCreateShardGroup("db0", "rp0", time.Date(2000, 1, 1, 0, 0, 0, 0, time.UTC).UnixNano()),
+				metacmd.CmdCreateShardGroup("db0", "rp0", time.Date(2000, 1, 1, 1, 0, 0, 0, time.UTC).UnixNano()))
+		}
 		for i := 0; i < nm; i++ {
 			p.Cmds = append(p.Cmds, metacmd.GenCmdBiased(t, fmt.Sprintf("c%d", i), bias))
 		}
